@@ -175,7 +175,9 @@ def job(cfg):
             if kind == "noci" and p.label != "dense" and not thorough:
                 continue
             trial = gridmc.trial_for(tc, 0)
-            d_impl = np.asarray(trial.get_rdm1(p.wave_data))
+            wdh = dict(p.wave_data)  # caller-owned dictionary used for the whole history below
+            keys0 = sorted(wdh)
+            d_impl = np.asarray(trial.get_rdm1(wdh))
             if kind == "ghf":  # a GHF state lives in the full N-particle space, not in one spin sector
                 full = sec.space.sd_vector(np.asarray(p.wave_data["mo_coeff"]))
                 d_ref = fock.rdm1_full(n, na + nb, full)
@@ -192,6 +194,26 @@ def job(cfg):
             res.add(states=1, transitions=1, evaluations=1, traces=1)
             if not e <= 1e-9:
                 res.violation("%s/rdm1" % kind, dict(cfg, entry="rdm1", label=p.label), dict(err=float(e), impl=d_impl, ref=d_ref_sym))
+            # histories on ONE caller-owned dictionary: the getter must not write into it, and after the parameters in
+            # that same dictionary are replaced (by hand, as optimize() does) the next call reports the NEW state
+            if sorted(wdh) != keys0:
+                res.violation("%s/rdm1-getter-modifies-wave-data" % kind, dict(cfg, entry="rdm1-history", label=p.label),
+                              dict(keys_before=keys0, keys_after=sorted(wdh)))
+            tcB = trials.build(kind, n, na, nb, seed + 1, cfg["variant"], full_basis=False)
+            pB = tcB.params[-1]
+            for kk in pB.wave_data:
+                wdh[kk] = pB.wave_data[kk]
+            d2 = np.asarray(trial.get_rdm1(wdh))
+            if kind == "ghf":
+                d2_ref = fock.rdm1_full(n, na + nb, sec.space.sd_vector(np.asarray(pB.wave_data["mo_coeff"])))
+            else:
+                d2_ref = fock.rdm1(pB.ket, sec)
+            e2 = min(np.abs(d2 - d2_ref).max(), np.abs(d2 - d2_ref.transpose(0, 2, 1)).max())
+            res.add(transitions=1, evaluations=1)
+            res.guard("rdm1_second_call_after_parameter_change", 1)
+            if not e2 <= 1e-9:
+                res.violation("%s/rdm1-stale-after-parameter-change" % kind, dict(cfg, entry="rdm1-history", label=p.label),
+                              dict(err=float(e2), impl=d2, ref=d2_ref))
             # a supplied rdm1 is returned untouched
             marker = np.arange(2 * n * n, dtype=float).reshape(2, n, n) / 7.0
             wd2 = dict(p.wave_data)
@@ -208,10 +230,10 @@ def run(ctx):
                 "x entry point (batched with several batch counts, single-walker vmap, restricted vs unrestricted) x the full "
                 "product grid of walker matrices (2 non-real letters per entry unrestricted, 3 restricted); a state is one "
                 "(configuration, parameter set, walker); non-trivial & distinct = distinct non-zero reference overlap values")
-    ctx.assume("trial parameters real (the library documents real coefficients); CI-kind beta/GHF bases orthogonal")
+    ctx.assume("CI coefficients real (the library documents real coefficients); orbitals real, and complex for rhf/uhf/ghf/noci (variants complex, complex_orth); CI-kind beta/GHF bases orthogonal")
     ctx.assume("grid decides the polynomial identity exactly for implementations of degree <= 1 (unrestricted) / <= 2 (restricted) per walker entry; dense exhaustive test otherwise")
     ctx.pmap(job, configs(ctx.tier, ctx.seed), tasks_per_child=2)
-    ctx.require_guard("grid_points_u", "grid_points_r", "rdm1_checked")
+    ctx.require_guard("grid_points_u", "grid_points_r", "rdm1_checked", "rdm1_second_call_after_parameter_change")
 
 
 def replay(case):
@@ -220,7 +242,7 @@ def replay(case):
     tc = trials.build(cfg["kind"], cfg["n"], cfg["na"], cfg["nb"], cfg["seed"], cfg["variant"],
                       full_basis=(not cfg.get("lite", False)) and (cfg["tier"] == "thorough" or cfg["kind"] != "multislater" or cfg["n"] <= 2))
     sec = fock.sector(cfg["n"], cfg["na"], cfg["nb"])
-    if cfg.get("entry") in ("rdm1", "rdm1-supplied") or "what" in cfg:
+    if cfg.get("entry") in ("rdm1", "rdm1-supplied", "rdm1-history") or "what" in cfg:
         res = job(dict(cfg))
         v = [x for x in res.violations]
         return (len(v) > 0, {"violations": [x["signature"] for x in v]})
